@@ -1,16 +1,45 @@
 import Driver.Common
+import LinkVerif.Model.Election
 
 namespace Driver.C05
-open Driver
+open Driver Go.Proto Model.Election
+
+/-- `addr:score:deposit` -/
+def parseCand (s : String) : Option Cand :=
+  match s.splitOn ":" with
+  | [a, sc, d] => do
+    let addr ← hexDecode? a
+    let score ← sc.toNat?
+    let dep ← d.toNat?
+    pure { addr := addr, score := score, deposit := dep }
+  | _ => none
+
+def parseCands (s : String) : Option (List Cand) :=
+  if s == "-" || s.isEmpty then some [] else (s.splitOn ";").mapM parseCand
+
+/-- `elect h= hash= rates=a,b,c cands=… floats=… out=…`: the model recomputes the election from its inputs -/
+def electAnswer (toks : List String) : String :=
+  match argHex? toks "hash", (arg? toks "rates").map splitComma, (arg? toks "cands").bind parseCands,
+        (arg? toks "floats").map splitComma, arg? toks "out" with
+  | some hash, some [a, b, c], some cands, some fl, some out =>
+    match a.toNat?, b.toNat?, c.toNat?, fl.mapM String.toNat? with
+    | some a, some b, some c, some floats =>
+      let res := elect a b c hash floats cands
+      let shown := if res.isEmpty then "-" else ",".intercalate (res.map (fun x => hexEncode (x.addr.take 4)))
+      if shown == out then "ok" else s!"model-elects {shown}"
+    | _, _, _, _ => "bad-elect"
+  | _, _, _, _, _ => "bad-elect"
 
 /-- the claim itself: every replica agrees after every block and a re-execution reproduces every digest
-(the theorems of Props.C05 cover the order-freedom of the state hash and the worker-count independence of the pre-check;
-replica agreement on the real application is what the harness compares) -/
+(the theorems of Props.C05 cover the order-freedom of the state hash, the worker-count independence of the pre-check and the
+election as a function of the candidate set; replica agreement on the real application is what the harness compares) -/
 def step (h : Nat) (toks : List String) : Nat × String :=
   match toks with
   | "case" :: _ => (0, "ok")
   | "block" :: _ => (h + 1, s!"h={h + 1} agree=true")
+  | "sblock" :: _ => (h + 1, s!"h={h + 1} agree=true")
   | "rerun" :: _ => (h, s!"same=true blocks={h}")
+  | "elect" :: _ => (h, electAnswer toks)
   | _ => (h, "ok")
 
 def machine : Machine := { σ := Nat, init := 0, step := step }
